@@ -75,6 +75,10 @@ func ruleQuorumShape() *Rule {
 				ob2.Verdict, ob2.Detail = Discharged, "counts the true values of r.configuration.IsVoter"
 			case src == "r.configuration.IsVoter" && !guarded:
 				ob2.Verdict, ob2.Detail = Violated, "every key of IsVoter is counted, including members whose value is false (non-voters)"
+			case strings.HasSuffix(src, ".IsVoter") || strings.HasSuffix(src, ".Members"):
+				ob2.Verdict = Violated
+				ob2.Detail = "the size of the electorate is taken from " + src + ", not from the configuration in force (r.configuration), while votes, acknowledgements and matches are counted for the voters of r.configuration: " +
+					"during a membership change the two differ, and a count that is a majority of the smaller one is not a majority of the other — two candidates can both reach 'quorum' in one term"
 			default:
 				ob2.Verdict, ob2.Detail = Undecided, "voters counts "+src
 			}
